@@ -35,6 +35,12 @@ def gen_joint(rng, length, name):
     do({"op": "sess_new", "name": cn, "role": "client"})
     do({"op": "sess_new", "name": sn, "role": "server"})
     c, s = im.sessions[cn], im.sessions[sn]
+    # half of the histories: both applications register the same custom control / filter / credential types first and then use them
+    custom = rng.random() < 0.5
+    if custom:
+        for nm in (cn, sn):
+            for what in ("control", "filter", "auth"):
+                do({"op": "call", "name": nm, "call": {"k": "register", "what": what}})
     pipe = {cn: b"", sn: b""}
     kinds = {}               # request id -> kind, as known to the server application (from received messages)
     sent = {cn: [], sn: []}  # messages sent, as JSON (from the accepted calls)
@@ -44,7 +50,7 @@ def gen_joint(rng, length, name):
         r = rng.random()
         closed = c.state.name == "CLOSED" or s.state.name == "CLOSED"
         if r < 0.25 and c.state.name != "CLOSED":
-            call = PS.g_client_call(rng)
+            call = PS.g_client_call(rng, custom)
             # the application tries the call; admissible = the session accepts it (a refusal has no effect, C10)
             if call["k"] == "unbind" and rng.random() < 0.7:
                 continue
